@@ -73,3 +73,37 @@ package storage
 //@ func KvStorage.GetTimestampOracle(ctx) (timestamp, err)
 //@   assumed
 //@   pure
+
+//@ func ExclusiveKvStorage.GetExclusiveKvStorage() (result)
+//@   assumed
+//@   pure
+//@   ensures [non-nil] result != nil
+
+//@ func KvStorage.GetPartitions(ctx, start, end) (partitions, err)
+//@   assumed
+//@   ensures [fresh] fresh(partitions) || is_nil(partitions)
+
+//@ func KvStorage.Iter(ctx, start, end, timestamp, limit) (it, err)
+//@   assumed
+//@   ensures [non-nil] err == nil ==> it != nil
+
+//@ func KvStorage.Del(ctx, key) (err)
+//@   assumed
+
+//@ func KvStorage.DelCurrent(ctx, iter) (err)
+//@   assumed
+
+//@ func Iter.Next(ctx) (err)
+//@   assumed
+
+//@ func Iter.Key() (key)
+//@   assumed
+//@   pure
+
+//@ func Iter.Val() (val)
+//@   assumed
+//@   pure
+
+//@ func Iter.Close() (err)
+//@   assumed
+//@   pure
